@@ -177,7 +177,8 @@ Fixpoint sorted_aw (l : list (F * F)) : bool :=
   | x :: l' => match l' with [] => true | y :: _ => fle (fst x) (fst y) end && sorted_aw l'
   end.
 Definition is_perm_b (perm : list nat) (n : nat) : bool :=
-  Nat.eqb (length perm) n && forallb (fun i => existsb (Nat.eqb i) perm) (seq 0 n).
+  Nat.eqb (length perm) n && forallb (fun i => Nat.ltb i n) perm &&
+  forallb (fun i => existsb (Nat.eqb i) perm) (seq 0 n).
 Definition sort_perm_ok (perm : list nat) (seg : list (F * F)) : bool :=
   is_perm_b perm (length seg) && sorted_aw (apply_perm perm seg).
 
